@@ -299,6 +299,8 @@ class DecTheory(ObjTheory):
             if n == "round":
                 return Z("int", fresh("round", I))
             if n in ("all", "any"):
+                if len(args) == 1 and isinstance(args[0], ObjV) and args[0].role == "lazy-gen":
+                    return self._short_circuit(ex, args[0], n == "any")      # over a tuple display: element by element
                 return Z("bool", fresh(n, B))
             if n == "Token":
                 return ObjV("token", info={"text": fresh("tok", S)})
